@@ -70,6 +70,17 @@ CLAIMS["C09"] = dict(
   text="Sufficient for 'never modifies them': no navigation/search command can reach a history writer. Decides that every GetLine implementation is total and every call site checks the error before using the line, that the buffer only ever receives stored entries or saved states, and that Walk saves/restores the in-progress text. Order of entries and matching semantics are not decided.",
   ref="§5 C09")
 
+CLAIMS["C16"] = dict(
+  level="other",
+  technique="static analysis: per-command idiom classification of what Buffers.Write stores (value slices, same-SSA-bounds pairing with Line.Cut, loop accumulation order), must-pass-through, ring-slot constant agreement",
+  text="Decides for each named kill command that what is stored is structurally what is removed (four accepted idioms), that every removing path records, that Selection.Cut reads before it mutates, that yank/put insert only the active buffer and that Write and Active use the same ring slot. Text equality after kill+yank for all buffers is not decided.",
+  ref="§5 C16")
+CLAIMS["C17"] = dict(
+  level="other",
+  technique="static analysis: sibling cross-check of the vi operators on go/ssa (guard facts per branch, must-pass-through, shape of the range expression), effect reachability for yank, table agreement of the adjustment list",
+  text="Decides that delete/yank/change follow one operator protocol (same adjustment before the read, same range expression over one Selection.Pos() call, same line-wise rule), that yank cannot write the buffer, the pending-operator protocol in execute/Pending/RunPending, and that the adjustment table names registered commands. Which range each motion marks is not decided.",
+  ref="§5 C17")
+
 NA_REASONS = {
  "C15": "Cycle coverage is arithmetic over a grid whose shape is computed at run time from candidate widths and terminal width; no pairing/ownership/ordering/table clause is a necessary condition, and a bounds proof of rows[y][x] needs the same run-time shape invariants. A check would be a brittle proxy (DESIGN.md §5 C15, §8).",
 }
